@@ -14,6 +14,7 @@ VARIABLE c
 \*   glob_all       use p1::*; use p2::*; ...
 \*   qualified_unknown   zzz::Dup in the field type
 \*   use_first      use p1::Dup;             an ordinary, unambiguous import (control)
+\*   use_facade_plus   use facade::Dup; use pN::OnlyN;   the ambiguous name next to an ordinary import from the last provider
 \*   distinct_needs no shared name at all: providers + 2 crates whose modules need different helpers and imports (Option, Vec,
 \*                  HashMap, unit, a date, a generic) - state a backend keeps across the modules of one run must not show
 \* renames: none | one (only the first provider carries serde(rename)) | all (each provider its own rename)
